@@ -204,6 +204,16 @@ EXTRA2 = {
 }
 
 
+# sentences appended for the rules of the sixth seeding round (rules/round7.py)
+EXTRA3 = {
+ 'C12': ' (GD-12) read_line keeps `bases_left` bytes of the BufRead buffer only behind a comparison of bases_left with min(len(fill_buf()), ..), a quantity bounded by what is buffered.',
+ 'C13': ' (EF-4b) no element-dropping or merging iterator adaptor (dedup, unique, filter, skip, take, ..) is applied in gff::Writer::write: repeated values of a key reach the output.',
+ 'C14': ' (EP-2) every term of hmm::backward that adds Model::initial_prob for the final likelihood also reads the backward table or calls end_prob (single-observation branch included).',
+ 'C15': ' (BP-1) in ln_trapezoidal_integrate_exp / ln_simpsons_integrate_exp no interval end handed in as a parameter is evaluated twice as a boundary point (which parameters reach the density; the value of the integral is not decided).',
+ 'C20': ' (SW-1) the codon window shared by the three reading frames is only slid inside orf::Matches::next, never emptied, shortened or replaced.',
+}
+
+
 def main():
     checks = []
     na = []
@@ -217,7 +227,7 @@ def main():
                 'evidence_file': '/verif/evidence/%s.json' % pid,
                 'replay_cmd_template': './bin/check %s --replay {path}' % pid,
                 'engine': 'biofacts+rules',
-                'level_claimed': {'category': c['level'], 'text': c['text'] + EXTRA.get(pid, '') + EXTRA2.get(pid, '') + (CF2 if pid in ('C01', 'C02', 'C05', 'C06', 'C08', 'C09', 'C10', 'C16', 'C19', 'C20') else ''), 'design_ref': c['ref']},
+                'level_claimed': {'category': c['level'], 'text': c['text'] + EXTRA.get(pid, '') + EXTRA2.get(pid, '') + EXTRA3.get(pid, '') + (CF2 if pid in ('C01', 'C02', 'C05', 'C06', 'C08', 'C09', 'C10', 'C16', 'C19', 'C20') else ''), 'design_ref': c['ref']},
                 'level_note': c['note'],
                 'technique': c['technique'],
             })
